@@ -1171,7 +1171,14 @@ extern void
 io_close(file_pair *pair, bool success)
 {
 	// Take care of sparseness at the end of the output file.
-	if (success && pair->dest_try_sparse
+	//
+	// This is needed also when the operation failed if we are writing
+	// to standard output: unlike a file created by xz, it won't be
+	// removed, and the data decoded before the error is expected to be
+	// there just like it would be if stdout were a pipe. Don't do it
+	// after a signal (user_abort) though.
+	if ((success || (pair->dest_fd == STDOUT_FILENO && !user_abort))
+			&& pair->dest_try_sparse
 			&& pair->dest_pending_sparse > 0) {
 		// Seek forward one byte less than the size of the pending
 		// hole, then write one zero-byte. This way the file grows
